@@ -57,9 +57,12 @@ try:
     p2, f2, fl2, ce2, out2 = tests(repo)
     res["demo_with_change"] = {"passed": p2, "failed": f2, "failing": fl2, "compile_error": bool(ce2)}
     print("2. demo with change: passed=%d failed=%d %s" % (p2, f2, fl2))
-    a = sh("patch -R -p1 < %s" % patch, repo)
+    # demonstration alone: a fresh pristine copy + the demo (reverting the source patch can fail when both touch neighbouring lines)
+    shutil.rmtree(repo)
+    subprocess.check_call(["rsync", "-a", "--exclude", "target", "--exclude", ".git", "/repo/", repo + "/"])
+    a = sh("patch -p1 < %s" % demo, repo)
     if a.returncode != 0:
-        sys.exit("cannot revert source patch:\n" + a.stdout)
+        sys.exit("demo patch does not apply to the pristine tree:\n" + a.stdout)
     p3, f3, fl3, ce3, out3 = tests(repo)
     res["demo_without_change"] = {"passed": p3, "failed": f3, "failing": fl3, "compile_error": bool(ce3)}
     print("3. demo without change: passed=%d failed=%d %s" % (p3, f3, fl3))
